@@ -1,6 +1,6 @@
 import Cirbo.Proofs.Rewrite
 import Cirbo.Proofs.Rename
-import Cirbo.Proofs.ReplaceWfs
+import Cirbo.Proofs.ReplaceSem
 /-!
 # C19 — Local rewrites keep or specialise the function exactly as documented
 
@@ -11,7 +11,8 @@ import Cirbo.Proofs.ReplaceWfs
 -- OBLIGATION: c19_rename_keeps_function
 -- OBLIGATION: c19_rename_keeps_invariant
 -- OBLIGATION: c19_replace_subcircuit_wellformed
--- PARTIAL: replace_subcircuit: that the result is well formed whenever the call returns is proved (c19_replace_subcircuit_wellformed — for ANY replacement, equivalent or not). That an equivalent replacement keeps the truth table is not proved yet: the call is modelled one-to-one (Mutate2.lean replaceSubcircuit incl. slice collection, block removal, re-insertion, restored users, whole-graph cycle check) and compared field by field with the code on many slices per circuit (identical, renamed, re-expressed and structurally entangled replacements), with truth tables as the search oracle.
+-- OBLIGATION: c19_replace_subcircuit_keeps_function
+-- PARTIAL: replace_subcircuit: 'keeps the truth table and the circuit well formed whenever it returns' is proved (c19_replace_subcircuit_wellformed for ANY replacement; c19_replace_subcircuit_keeps_function for a replacement that agrees with the slice on every valuation of the circuit, under the side condition that no slice output is a circuit INPUT — without it the call can return a circuit with fewer inputs). Which errors it raises otherwise ('or raises one of the documented errors') is established by the correspondence run only: the model returns the error names the code raises, compared on every generated call.
 -/
 namespace Cirbo
 open Circuit
@@ -74,6 +75,38 @@ theorem c19_replace_subcircuit_wellformed {c sub c' : Circuit} {im om : List (La
     (h : c.replaceSubcircuit sub im om uuid = .ok (c', k')) : WFS c' :=
   replaceSubcircuit_wfs hw hs hik hok h
 
+/-- **replacing a subcircuit by one that agrees with it leaves the truth table unchanged and the
+circuit well formed.** `SliceAgrees c sub im om`: on every valuation of `c`, the replacement fed the
+values at the slice inputs (`im`: circuit gate ↦ replacement input) produces the values at the slice
+outputs (`om`: circuit gate ↦ replacement output) — functional equivalence under the given
+correspondence, asked only on value combinations that occur. Then, whenever the call returns, the
+result is well formed and there is a relabelling `f` of its inputs onto the original inputs, position
+by position, under which every valuation of the original yields a valuation of the result with the
+same output values, position by position — i.e. the same truth table. -/
+theorem c19_replace_subcircuit_keeps_function {c sub c' : Circuit} {im om : List (Label × Label)} {uuid k' : Nat}
+    (hw : WFS c) (hsu : WFU sub)
+    (hsb : ∀ b ∈ sub.blocks, (∀ l ∈ b.gates, l ∈ sub.labels) ∧ (∀ l ∈ b.inputs, l ∈ sub.labels))
+    (hik : (im.map (·.1)).Nodup) (hok : (om.map (·.1)).Nodup)
+    (hag : SliceAgrees c sub im om) (hnoin : ∀ p ∈ om, p.1 ∉ c.inputs)
+    (h : c.replaceSubcircuit sub im om uuid = .ok (c', k')) :
+    WFS c' ∧ ∃ f : Label → Label, c'.inputs.map f = c.inputs ∧
+      ∀ b v, IsValB c b v → ∃ v', IsValB c' (b ∘ f) v' ∧ c'.outputs.map v' = c.outputs.map v :=
+  replaceSubcircuit_sem hw hsu hsb hik hok hag hnoin h
+
+open GateType in
+/-- non-vacuity of the agreement hypothesis -/
+example : SliceAgrees ⟨[⟨"a", INPUT, []⟩, ⟨"x", NOT, ["a"]⟩], ["a"], ["x"], [("a", ["x"])], []⟩
+    ⟨[⟨"p", INPUT, []⟩, ⟨"r", NOT, ["p"]⟩], ["p"], ["r"], [("p", ["r"])], []⟩ [("a", "p")] [("x", "r")] := by
+  intro b v bs vs hv hvs hin p hp
+  simp only [List.mem_singleton] at hp; subst hp
+  have h1 := hv ⟨"x", NOT, ["a"]⟩ (by simp)
+  have h2 := hvs ⟨"r", NOT, ["p"]⟩ (by simp)
+  have h3 := hin ("a", "p") (by simp)
+  simp [bfun] at h1 h2 h3
+  show vs "r" = v "x"
+  rw [h3, h1] at h2
+  cases hx : v "x" <;> cases hr : vs "r" <;> simp_all
+
 open GateType in
 /-- non-vacuity: a two-gate slice replaced by one gate -/
 example : ((Circuit.replaceSubcircuit
@@ -91,5 +124,6 @@ example : ((Circuit.replaceSubcircuit
 #print axioms c19_rename_keeps_function
 #print axioms c19_rename_keeps_invariant
 #print axioms c19_replace_subcircuit_wellformed
+#print axioms c19_replace_subcircuit_keeps_function
 
 end Cirbo
